@@ -136,6 +136,8 @@ class RemapColumnsOp(BaseOp):
         df1[self.source_columns] = df1[self.source_columns].replace(
             np.nan, 'n/a')
         for column in self.integer_sources:
+            # An object column holds the integers next to the n/a cells (a str column would refuse them).
+            df1[column] = df1[column].astype(object)
             int_mask = df1[column] != 'n/a'
             df1.loc[int_mask, column] = df1.loc[int_mask, column].astype(int)
         df1[self.source_columns] = df1[self.source_columns].astype(str)
